@@ -49,7 +49,15 @@ def _validator():
         from aw_core import schema
         from jsonschema import FormatChecker
 
-        _schema = schema.get_json_schema("event")
+        first = schema.get_json_schema("event")
+        # an application loads the other published schemas too (bucket, export); the event schema is what it is after that, for
+        # the dict obtained before as for one obtained now
+        for other in ("bucket", "export"):
+            try:
+                schema.get_json_schema(other)
+            except Exception:
+                pass
+        _schema = [first, schema.get_json_schema("event")]
         _fc = FormatChecker(["date-time"])
     return _schema, _fc
 
@@ -580,13 +588,14 @@ class C13(Prop):
         except Exception as ex:
             return ["err", "to_json:" + ek(ex)]
         loaded = json.loads(text)
-        schema, fc = _validator()
+        schemas, fc = _validator()
         ok = True
-        for obj in (jd, loaded):
-            try:
-                jsonschema.validate(obj, schema, format_checker=fc)
-            except jsonschema.ValidationError:
-                ok = False
+        for schema in schemas:
+            for obj in (jd, loaded):
+                try:
+                    jsonschema.validate(obj, schema, format_checker=fc)
+                except jsonschema.ValidationError:
+                    ok = False
         d = loaded.get("duration")
         out["json"] = {
             "ts": parse_out_ts(loaded["timestamp"]) if isinstance(loaded.get("timestamp"), str) else ["not-str"],
